@@ -24,7 +24,10 @@ THEOREMS = [
     "C16.pairArgmin_spec", "C16.pair_step_inv", "C16.pair_exact", "C16.pair_step_loc", "C16.pair_same_place",
 ]
 TRUSTED = ["hand-written rational models Model/Resample.lean of np.interp / linspace / arange, the two branch resamplers, the moving-average smoother and the "
-           "branch re-assembly rule (tied by the c16.branch correspondence; values compared with tolerance 1e-5 because the code computes in float32/64)"]
+           "branch re-assembly rule (tied by the c16.branch correspondence; values compared with tolerance 1e-5 because the code computes in float32/64)",
+           "imperative translator (harness/translate_algo.py + Model/Py.lean, Model/PyObj.lean) for BranchTreeAssembler.__call__ / Node.detach, cross-checked by the `gasm` lines of c16.assemble; "
+           "its glue (harness/algo_specs/30_assembler.py): x.soma() = row 0 (the soma type check is outside), x.branches = the dictionary parameter, the two float tests "
+           "`np.linalg.norm(..) < self.EPS` = the parameters dupFirst / dupLast, the final `Tree(...)` = the two columns [n.id ..], [n.pid ..]; detach(): the one-row table = its id / pid columns"]
 ASSUMPTIONS = ["segment lengths enter the model as exact numbers (generated polylines are axis-aligned lattice paths); square roots and float rounding are outside",
                "scipy.signal.convolve(mode='same') window alignment as modelled; the assembler's greedy pairing is modelled on squared distances (Model/Mst.lean pairGreedy, tied by c16.pair) and proved to be "
                "the true matching when every branch ends at exactly one child, and — when sister branches end at the same point — a perfect matching that pairs every branch with a child lying exactly at its end point (pair_same_place)"]
